@@ -2,15 +2,15 @@
 from . import common as C
 
 MANIFEST = dict(
-   technique="Lean 4 proof over store models with caller-visible value graphs (cells for maps / slices / pointees, value-typed aggregate nodes for structs and arrays held by value; reach / ser / deep copy / rebuild / assign) + correspondence: a type-directed generator of Go value graphs drives (i) by-value inputs through Parse / ParseAny / StrictParse of generated schema trees with digests (contents + addresses, spare capacity included) of every cell of the input graph, (ii) typed default / prefault values through random Parse(nil) / deep-mutation histories over families of schemas sharing the value, (iii) pointers through Parse / StrictParse, (iv) a schema language in which every schema-owned cell is explicit (literals over any with slice / map members, defaults, objects / slices / records / unions embedding them) through Parse - mutate - Parse histories over fresh equal copies of generated inputs, the Lean model predicting verdict, look, aliasing and the state of the schemas",
-   text="For the code as it is (deepCloneValue clones maps, slices, pointees and, field by field, structs and arrays): g_copyOK (the deep copy of any graph with value-typed aggregates, to any depth, consists of fresh cells only, looks exactly like the original and writes nothing that existed), g_result_fresh (Parse(nil): everything reachable from the returned default / prefault is fresh), g_assign_frame and g_hist (any interleaving of Parse(nil) calls on a family of schemas and stores of arbitrary contents into cells outside the schema-owned region leaves every default graph, hence every later result, looking the same), g_parse_mutate_parse (Parse(nil), change every scalar of every reachable cell at any nesting and add entries, Parse(nil): same look; no side conditions), g_input_unchanged (Parse of a by-value input graph builds its result in fresh cells for EVERY rewriting of entries — strip, key canonicalisation, coercion — so every cell of the input holds what it held), For EVERY schema-owned cell, not only defaults (Model/Owned.lean: parseS over any / String / literal-over-any / Default / Object strip-loose-strict / Slice / Record / Union, transcribed from validateLiteral, resolveDefault, validateObject, validateSlice, validateRecord): own_parse_ext (Parse of any value with any schema writes nothing that existed), own_result_fresh (every cell of a result was allocated by the call or is a cell of the caller's own input - never a literal member, a default or anything else a schema holds), own_mutate_reach (deep in-place mutation changes no reference), own_hist (ANY history of Parse calls with any schema of a family on newly built equal copies of any input, interleaved with deep mutation of any earlier result: every cell that existed at the start - all the schemas hold and the caller's original inputs - holds bit-for-bit what it held and every result consists of cells allocated since; no hypothesis about where the caller writes), own_hist_schema_look (every literal member / default looks the same and is still owned). The relational half, in the property's own words (Proofs/C15Congr.lean): own_parse_congr (Parse with the same schema in two stores in which every cell the schema holds looks the same, of two inputs that look the same at every depth whatever cells they are made of: the same verdict, and answers that look the same - the cells the two calls allocate are forgotten by ser), copy_look (the deep copy a caller makes looks like the original at every depth), own_hist_same_answer (in ANY history of Parse calls and deep in-place mutations of earlier results, parsing a newly built copy of input i with schema j before and after any further such history gives the same verdict and answers that look the same: mutating a value returned by Parse never changes what a later Parse returns). Parse through a caller's pointer (Graph.parsePtrS / sameV = validatePointer / sameValue after /repo e584c0e, Proofs/C15Ptr.lean): own_ptr_input_unchanged (any schema, accepted or refused: only allocates - the caller's variable, the pointee's graph and every schema cell hold what they held), own_ptr_same_pointer (the validated value is the pointee: the caller's own pointer comes back), own_ptr_own_pointer (the schema built a new value: a pointer allocated by the call, holding it), witness legacy_ptr_pointee_replaced (the code before e584c0e re-pointed the caller's variable). Witness lit_member_shared (a literal that continues with its declared member hands out the schema's cell; one store through the result and an equal input is refused). The clone's depth limit (Model/Clone.lean): deepCloneValue as it is returns the original below maxCloneDepth - Gozod.Graph.copy at its fuel - witnesses legacy_clone_shares_below_fuel (a default deeper than the limit) and legacy_clone_cyclic_shares (a self-referential default: the unrolled copy ends in the schema's own cell), both re-derived on /repo by the class deep (open: deep-aliased:*); for the memoised clone of pending/C15-clone-deep-default (cloneIso: the isomorphic image of the reachable graph, total on cyclic values): cloneIso_ext, cloneIso_fresh (every cell reachable from the result, to ANY depth, on ANY graph, is new), cloneIso_parse_mutate. Plus the round-1 theorems over plain node graphs (copyOK, c15_result_fresh, c15_mut_frame, c15_hist, c15_input_unchanged, c15_same_pointer). Witnesses: bulk_agg_copy_shared (copying struct / array elements by assignment leaves the cells they refer to shared), today_nested_default_shared (one-level copy).",
-   note="The g_* / own_* theorems follow graphs to 16 nested levels (the classes val / hist / own build at most 13); they describe the clone for values within its depth limit - beyond it (and for self-referential values) the code as it is violates the property: class deep, open: deep-aliased:*, pending fix, and the cloneIso_* theorems (no depth bound) for the fixed clone. The model of by-value container parsing (`rebuild`) abstracts what each schema type does to entries into an arbitrary function rw; that the real containers only read the input is established per case by the digests, not by translation of the Go code. g_hist takes the caller's stores to be outside the schema-owned region (discharged for results by g_result_fresh; g_parse_mutate_parse has no such hypothesis). The two pointer clauses are read so that they can hold together (notes/C15.md): the input graph is unchanged always; the same pointer is demanded whenever the answer looks like what the pointer referred to; when the answer differs from the pointee (stripped / canonicalised / defaulted) a pointer of its own is the only admissible answer. StrictParse returning the caller's pointer is checked by the correspondence. own_parse_congr / own_hist_same_answer ask that the inputs look the same at every depth and conclude that the answers look the same to depth 16. Struct fields that are unexported stay shared in a cloned default (limit of deepCloneValue, not reachable by a caller outside the package). Trusted: Lean kernel, axioms propext/Classical.choice/Quot.sound, the Go harness (reflective generator, digests, mutator, graph encoder).",
+   technique="Lean 4 proof over store models with caller-visible value graphs (cells for maps / slices / pointees, value-typed aggregate nodes for structs and arrays held by value; reach / ser / deep copy / rebuild / assign) + correspondence: a type-directed generator of Go value graphs drives (i) by-value inputs through Parse / ParseAny / StrictParse of generated schema trees with digests (contents + addresses, spare capacity included) of every cell of the input graph, (ii) typed default / prefault values through random Parse(nil) / deep-mutation histories over families of schemas sharing the value, (iii) pointers through Parse / StrictParse, (iii') the modelled schema language made value-typed / Optional / Nilable / XPtr with a generated pointee through a fresh pointer, the Lean model predicting verdict, same / own pointer and look, the statement evaluated in Lean from schema and pointee alone, (iv) a schema language in which every schema-owned cell is explicit (literals over any with slice / map members, defaults, objects / slices / records / unions embedding them) through Parse - mutate - Parse histories over fresh equal copies of generated inputs, the Lean model predicting verdict, look, aliasing and the state of the schemas",
+   text="For the tree-unrolling clone Graph.copy (maps, slices, pointees and, field by field, structs and arrays; look-equivalent to the code's memoised clone by cloneIso_copy_look): g_copyOK (the deep copy of any graph with value-typed aggregates, to any depth, consists of fresh cells only, looks exactly like the original and writes nothing that existed), g_result_fresh (Parse(nil): everything reachable from the returned default / prefault is fresh), g_assign_frame and g_hist (any interleaving of Parse(nil) calls on a family of schemas and stores of arbitrary contents into cells outside the schema-owned region leaves every default graph, hence every later result, looking the same), g_parse_mutate_parse (Parse(nil), change every scalar of every reachable cell at any nesting and add entries, Parse(nil): same look; no side conditions), g_input_unchanged (Parse of a by-value input graph builds its result in fresh cells for EVERY rewriting of entries — strip, key canonicalisation, coercion — so every cell of the input holds what it held), For EVERY schema-owned cell, not only defaults (Model/Owned.lean: parseS over any / String / literal-over-any / Default / Object strip-loose-strict / Slice / Record / Union, transcribed from validateLiteral, resolveDefault, validateObject, validateSlice, validateRecord): own_parse_ext (Parse of any value with any schema writes nothing that existed), own_result_fresh (every cell of a result was allocated by the call or is a cell of the caller's own input - never a literal member, a default or anything else a schema holds), own_mutate_reach (deep in-place mutation changes no reference), own_hist (ANY history of Parse calls with any schema of a family on newly built equal copies of any input, interleaved with deep mutation of any earlier result: every cell that existed at the start - all the schemas hold and the caller's original inputs - holds bit-for-bit what it held and every result consists of cells allocated since; no hypothesis about where the caller writes), own_hist_schema_look (every literal member / default looks the same and is still owned). The relational half, in the property's own words (Proofs/C15Congr.lean): own_parse_congr (Parse with the same schema in two stores in which every cell the schema holds looks the same, of two inputs that look the same at every depth whatever cells they are made of: the same verdict, and answers that look the same - the cells the two calls allocate are forgotten by ser), copy_look (the deep copy a caller makes looks like the original at every depth), own_hist_same_answer (in ANY history of Parse calls and deep in-place mutations of earlier results, parsing a newly built copy of input i with schema j before and after any further such history gives the same verdict and answers that look the same: mutating a value returned by Parse never changes what a later Parse returns). Parse through a caller's pointer (Proofs/C15Ptr.lean; Graph.parsePtrS / sameV = validatePointer / sameValue after /repo e584c0e; Graph.parsePtrP = the same over the four ways a schema is made - value-typed, .Optional(), .Nilable(), XPtr - with defaults not applying to a pointee, literals refusing pointers, Any answering the pointer itself; Graph.wantSame = the second clause in its words, computed from schema and pointee alone: pointer-typed / optional / nilable and the documented answer looks like the pointee -> the same pointer; documented answer differs (strip-mode object given unknown keys) -> a pointer of its own; value-typed -> nothing asked): ptrP_input_unchanged / ptrP_pointee_unchanged (every variant, every schema, accepted or refused: only allocates - the caller's variable, the pointee's graph and every schema cell hold what they held), ptr_same_pointer_full (the clause; a Prop), ptr_same_pointer_obj_witness (false for the code as it is: an object builds a new map even when nothing is stripped - open: ptr:parse:different-pointer:ZodObject, pending/C15-objectptr-same-pointer), ptr_same_pointer_partial (true for every schema whose root is not an object: decidable exclusion rootObj; no hypothesis on the model's answer), ptrP_obj_own_pointer (object roots: a pointer allocated by the call), ptr_clauses_exclusive + witness ptr_letter_conflict (a store that left the input unchanged shows through the caller's pointer what it showed: the same pointer can never carry an answer that looks different - why wantSame demands a pointer of its own there), own_ptr_input_unchanged / own_ptr_same_pointer / own_ptr_own_pointer (the lemmas over parsePtrS), witness legacy_ptr_pointee_replaced (the code before e584c0e re-pointed the caller's variable). Witness lit_member_shared (a literal that continues with its declared member hands out the schema's cell; one store through the result and an equal input is refused). The clone (Model/Clone.lean): /repo HEAD has the memoised deepCloneSeen (e9eb0f2) = Graph.cloneIso (the isomorphic image of the reachable graph, total on cyclic values; run by the classes hist and deep): cloneIso_ext, cloneIso_fresh (every cell reachable from the result, to ANY depth, on ANY graph, is new), cloneIso_iso (Proofs/C15Iso.lean: the clone LOOKS LIKE the original at every depth - same shape, keys and leaves, sharing and cycles included - when the memo collected every reachable cell), cloneIso_parse, cloneIso_hist (any interleaving of Parse(nil) and stores of arbitrary contents into cells the schema does not own: the default and every later answer look like the default at every depth; no depth bound), cloneIso_parse_mutate_parse, cloneIso_copy_look (the tree-unrolling Graph.copy that parseS (.dflt) and the g_* / own_* theorems run answers values that look the same as the memoised clone's; they differ in sharing inside one answer only). Witnesses about the clone BEFORE e9eb0f2 (Graph.copy at explicit fuel): legacy_clone_shares_below_fuel, legacy_clone_cyclic_shares. Plus the round-1 theorems over plain node graphs (copyOK, c15_result_fresh, c15_mut_frame, c15_hist; legacy_c15_input_unchanged / legacy_c15_same_pointer are about the write-back of the code before e584c0e and a hard-wired answer: kept as legacy, they tie nothing). Witnesses: bulk_agg_copy_shared (copying struct / array elements by assignment leaves the cells they refer to shared), today_nested_default_shared (one-level copy).",
+   note="Run only (no Lean model of the schema type; judged on the implementation by digests / addresses / looks): Optional / Nilable / Prefault / Lazy INSIDE a tree, Struct, Map, Set, Tuple, Array, Intersection, DiscriminatedUnion, key-canonicalising records, StrictParse of by-value inputs - classes val / reparse / hist / ptr / ptr(gen) / ptr(ctor); for ptr* the second clause is evaluated by Graph.wantSameRun on what the answer looks like beside the pointee (nothing left unjudged for a pointer-typed answer; an answer that is no pointer of the caller's type is counted and not judged). Modelled and tied per case (schema and input in the op line): any / String / literal-over-any / Default / Object strip-loose-strict / Slice / Record(String) / Union (classes own, optr), each as value-typed, Optional, Nilable and XPtr at the root for the pointer clause (union roots excepted: what a member does with a *any is outside the model). Prefault is not in GSchema (its value goes through parsing): run only (hist, deep). The g_* / own_* theorems follow graphs to 16 nested levels (the classes val / hist / own build at most 13) and are about Graph.copy; the memoised clone has no depth bound (cloneIso_*). The model of by-value container parsing (`rebuild`) abstracts what each schema type does to entries into an arbitrary function rw; that the real containers only read the input is established per case by the digests, not by translation of the Go code; the val / reparse model columns are therefore not informative (val: rebuild on the encoded graph; reparse: constant). g_hist / cloneIso_hist take the caller's stores to be outside the schema-owned region (discharged for answers by g_result_fresh / cloneIso_parse). The two pointer clauses are read so that they can hold together (notes/C15.md): the input graph is unchanged always; the same pointer is demanded whenever the documented answer looks like what the pointer referred to; when it differs (stripped keys) a pointer of its own is demanded (ptr_clauses_exclusive). own_parse_congr / own_hist_same_answer ask that the inputs look the same at every depth and conclude that the answers look the same to depth 16. Struct fields that are unexported stay shared in a cloned default (limit of deepCloneSeen, not reachable by a caller outside the package). Trusted: Lean kernel, axioms propext/Classical.choice/Quot.sound, the Go harness (reflective generator, digests, mutator, graph encoder).",
    design="DESIGN.md §3.4, §5 C15; notes/C15.md")
 
-MODULES = ["Gozod.Proofs.C15", "Gozod.Proofs.C15Agg", "Gozod.Proofs.C15Own", "Gozod.Proofs.C15Clone", "Gozod.Proofs.C15Congr", "Gozod.Proofs.C15Ptr"]
+MODULES = ["Gozod.Proofs.C15", "Gozod.Proofs.C15Agg", "Gozod.Proofs.C15Own", "Gozod.Proofs.C15Clone", "Gozod.Proofs.C15Congr", "Gozod.Proofs.C15Ptr", "Gozod.Proofs.C15Iso"]
 THEOREMS = [
     "Gozod.C15.c15_result_fresh", "Gozod.C15.copyOK", "Gozod.C15.c15_mut_frame", "Gozod.C15.c15_hist",
-    "Gozod.C15.c15_input_unchanged", "Gozod.C15.c15_same_pointer", "Gozod.C15.graph_frame",
+    "Gozod.C15.legacy_c15_input_unchanged", "Gozod.C15.legacy_c15_same_pointer", "Gozod.C15.graph_frame",
     "Gozod.C15.today_nested_default_shared",
     # graphs with value-typed aggregates (structs / arrays held by value inside containers)
     "Gozod.C15.g_copyOK", "Gozod.C15.g_result_fresh", "Gozod.C15.g_assign_frame", "Gozod.C15.g_hist",
@@ -25,9 +25,17 @@ THEOREMS = [
     # Parse through a caller's pointer (validatePointer after /repo e584c0e): Proofs/C15Ptr.lean
     "Gozod.C15.own_ptr_input_unchanged", "Gozod.C15.own_ptr_same_pointer", "Gozod.C15.own_ptr_own_pointer",
     "Gozod.C15.legacy_ptr_pointee_replaced",
+    # the pointer clause over every variant (value-typed / optional / nilable / pointer-typed) of every schema: parsePtrP, wantSame
+    "Gozod.C15.ptrP_input_unchanged", "Gozod.C15.ptrP_pointee_unchanged", "Gozod.C15.parse_keeps", "Gozod.C15.ptr_same_pointer_partial",
+    "Gozod.C15.ptr_same_pointer_obj_witness", "Gozod.C15.obj_builds_new", "Gozod.C15.ptrP_obj_own_pointer",
+    "Gozod.C15.ptr_clauses_exclusive", "Gozod.C15.ptr_letter_conflict",
     # the clone with its depth limit explicit; the memoised clone (Model/Clone.lean)
     "Gozod.C15.legacy_clone_shares_below_fuel", "Gozod.C15.legacy_clone_cyclic_shares", "Gozod.C15.cloneIso_ext",
     "Gozod.C15.cloneIso_fresh", "Gozod.C15.cloneIso_result_fresh", "Gozod.C15.cloneIso_parse_mutate",
+    # the memoised clone (deepCloneSeen) looks like the original at every depth; Parse(nil) histories over it (Proofs/C15Iso.lean)
+    "Gozod.C15.shift_look", "Gozod.C15.cloneIso_iso", "Gozod.C15.cloneIso_ser", "Gozod.C15.cloneIso_wf", "Gozod.C15.reach_closed",
+    "Gozod.C15.defaultOK_frame", "Gozod.C15.cloneIso_parse", "Gozod.C15.cloneIso_hist", "Gozod.C15.cloneIso_parse_mutate_parse",
+    "Gozod.C15.cloneIso_copy_look",
 ]
 
 
@@ -44,6 +52,17 @@ def key(op, impl, M, S):
             # the pointee slot was re-pointed to the newly built result (`*ptr = v`); the caller's container is intact
             return "ptr:%s:pointee-replaced:%s" % (t[2], typ)
         return "ptr:%s:%s:%s:%s" % (t[2], what, typ, variant.split("/")[0])
+    if t[1] == "optr":
+        # the pointer clause over the modelled language: impl / spec = "<u|W> <r|s|d|v|t> <look>"
+        iu, itok, ilook = (impl.split(" ") + ["?", "?"])[:3]
+        su, stok, slook = ((S or "").split(" ") + ["?", "?"])[:3]
+        if iu == "W":
+            return "ptr:%s:input-written:%s:optr" % (t[2], typ)
+        if itok == "d" and stok == "s":
+            return "ptr:%s:different-pointer:%s:optr" % (t[2], typ)
+        if itok != stok:
+            return "ptr:%s:answer-%s-wanted-%s:%s:optr" % (t[2], itok, stok, typ)
+        return "optr-look:%s:%s" % (t[2], typ)          # verdict / look of the answer differs from the model's
     if t[1] == "dflt":
         return "%s-aliased:%s:depth%s" % (t[2], typ, t[3])
     if t[1] == "val":
@@ -84,6 +103,13 @@ def describe(op):
                 "steps: P = Parse(nil) on the schema or its Describe clone, M<j>@<k> = follow the first container-holding entry of the j-th result k levels down and "
                 "mutate that cell in place; observation = <same|CHANGED per later P (look = tree unfolding to 90 levels)>|<fresh|ALIASED (iterative uncapped walk of "
                 "addresses against the held value and earlier results)> (harness/cmd/c15/deep.go)")
+    if C.op_body(op).split(" ")[1] == "optr":
+        return ("optr: <parse|strict> <v|o|n|p> | T <content ids of the string scalars> | schema | pointer — the pointer clause over the modelled language "
+                "(harness/cmd/c15/optr.go): schema T ::= any | str | lit k V^k | dflt V T | obj <s|l|x> k (key T)^k | slice T | rec T | union T T made as "
+                "v = types.X(...), o = .Optional(), n = .Nilable(), p = types.XPtr(...); pointer = R <label> 1 0 <pointee graph> (a fresh variable of the root's Go type: "
+                "map[string]any / []any / string / any); observation = <u|W: contents + addresses of everything reachable from the caller's pointer before / after> "
+                "<r refused | s the caller's pointer came back | d another pointer of the same type | v a value | t something else> <h<storex.SerHash of the answer>|->; "
+                "model = Gozod.Graph.parsePtrP, statement = Gozod.Graph.wantSame (schema and pointee alone); after '#': optr:<tree>.<variant>")
     if C.op_body(op).split(" ")[1] == "own":
         return ("own: <number of schema-owned cells m> <steps> | T <content ids of the string scalars> | schema ; schema ; ... | input ; input ; ... "
                 "schemas: T ::= any | str | lit k V^k | dflt V T | obj <s|l|x> k (key T)^k | slice T | rec T | union T T (harness/cmd/c15/own.go; the family is "
